@@ -716,6 +716,12 @@ func (x *Exec) check(st *State, o *Oblig, goal string) bool {
 		// can report spurious models. The standalone race decides.
 		rr := Race(script, x.raceTimeout, x.inputTerms)
 		o.Ms += rr.Ms
+		if rr.Status != "unsat" && rr.Status != "sat" && x.raceTimeout < 60 {
+			// no engine decided within the (wall-clock) limit: on a loaded machine that is not yet an
+			// answer. One more race with a six times larger limit before the instance counts as failed.
+			rr = Race(script, x.raceTimeout*6, x.inputTerms)
+			o.Ms += rr.Ms
+		}
 		if rr.Status == "unsat" {
 			o.Unsat++
 			o.Engines[rr.Engine]++
